@@ -126,7 +126,7 @@ def to_coq(world, obs):
     if obs.get('driver_failed'):
         # the driver itself died: report as aborted with empty observation
         return ('{| w := %s; o := %s; i_parent := []; i_children := []; i_ran := 0; i_fail := []; i_err := []; i_skip := 0; '
-                'i_failed := true; i_aborted := true; i_summaries := []; i_total := None; i_injected := false |}' % (g_world(world, mod), g_opts(world)))
+                'i_failed := true; i_aborted := true; i_summaries := []; i_total := None; i_injected := false; i_lfail := None; i_lerr := None |}' % (g_world(world, mod), g_opts(world)))
     parent, children, order = worldrun.split_processes(obs)
     pe = [g_oev(r) for r in parent]
     ch = []
@@ -135,15 +135,23 @@ def to_coq(world, obs):
         evs = [g_oev(r) for r in children[nm]]
         ch.append('(%d%%nat, %s)' % (999 if i is None else i, g_list([e for e in evs if e])))
     so = worldrun.parse_stdout(obs['stdout'])
+    verbose = any(re.match(r'^-[a-z]*v', a) or a == '--verbose' for a in world.get('options', []))
+
+    def listing(key):
+        # the sections are printed only in verbose runs; a verbose run without the section lists nothing
+        names = so[key]
+        if names is None:
+            return '(Some [])' if verbose else 'None'
+        return '(Some %s)' % g_list([g_name(x, world, mod) for x in names])
     return ('{| w := %s; o := %s; i_parent := %s; i_children := %s; i_ran := %d; i_fail := %s; i_err := %s; i_skip := %d; '
-            'i_failed := %s; i_aborted := %s; i_summaries := %s; i_total := %s; i_injected := %s |}' % (
+            'i_failed := %s; i_aborted := %s; i_summaries := %s; i_total := %s; i_injected := %s; i_lfail := %s; i_lerr := %s |}' % (
                 g_world(world, mod), g_opts(world, obs.get('import_errors', 0)),
                 g_list([e for e in pe if e]), g_list(ch), obs['ran'],
                 g_list([g_name(s, world, mod) for s in obs['failures']]),
                 g_list([g_name(s, world, mod) for s in obs['errors']]), obs['n_skipped'],
                 g_bool(obs['failed']), g_bool(obs['aborted'] is not None),
                 g_list([g_quad(q) for q in so['summaries']]), g_opt(None if so['total'] is None else g_quad(so['total'])),
-                g_bool(bool(world.get('injected')))))
+                g_bool(bool(world.get('injected'))), listing('listed_failures'), listing('listed_errors')))
 
 
 # ---------------------------------------------------------------- generator
@@ -220,4 +228,12 @@ def gen_world(rng, max_layers=4, max_tests=7, opts='any', faults=True, rich=True
             options.append(rng.choice(['-c', '-p', '--buffer', '-vvv']) if rng.random() < 0.8 else '--xml=xmlout')
     elif isinstance(opts, list):
         options = list(opts)
-    return {'layers': layers, 'tests': tests, 'options': options}
+    world = {'layers': layers, 'tests': tests, 'options': options}
+    # how the run is started: the Runner class directly, or the public entry points that turn its verdict into a
+    # return value (run_internal) or an exit status (run)
+    r = rng.random()
+    if r < 0.2:
+        world['via'] = 'run_internal'
+    elif r < 0.4:
+        world['via'] = 'run'
+    return world
